@@ -742,8 +742,13 @@ def normalize_function(fn, resolver=None, list_attrs=frozenset(), consts=None, c
             if isinstance(n, ast.comprehension):
                 comp_targets |= _names(n.target)
         table = {}
+        # a name that a nested function / lambda reads keeps its definition (the substitution does not enter nested scopes)
+        nested_names = set()
+        for n in ast.walk(new):
+            if n is not new and isinstance(n, (ast.FunctionDef, ast.AsyncFunctionDef, ast.Lambda, ast.ClassDef)):
+                nested_names |= {x.id for x in ast.walk(n) if isinstance(x, ast.Name)}
         for name, asg in single.items():
-            if name in comp_targets or name == 'self':
+            if name in comp_targets or name == 'self' or name in nested_names:
                 continue
             v = asg.value
             vc = v.operand if isinstance(v, ast.UnaryOp) and isinstance(v.op, ast.USub) else v
@@ -805,9 +810,13 @@ def normalize_function(fn, resolver=None, list_attrs=frozenset(), consts=None, c
     # N6
     counts, single = _binding_counts(new)
     table = {}
+    nested_names = set()
+    for n in ast.walk(new):
+        if n is not new and isinstance(n, (ast.FunctionDef, ast.AsyncFunctionDef, ast.Lambda, ast.ClassDef)):
+            nested_names |= {x.id for x in ast.walk(n) if isinstance(x, ast.Name)}
     for name, asg in single.items():
         v = asg.value
-        if not _is_boolish(v):
+        if not _is_boolish(v) or name in nested_names:
             continue
         free = _names(v)
         if _rebound_between(new, asg, name, free):
